@@ -389,7 +389,7 @@ fn cmd_miri_pack(a: &[String]) -> Result<u8, String> {
     let total = sc.total_runs(Tier::Quick);
     let mut chosen: Vec<J> = Vec::new();
     let (mut lossy, mut slider, mut bank, mut other) = (0, 0, 0, 0);
-    let mut idx = total.saturating_sub(250_000); // seeded part
+    let mut idx = total.saturating_sub(180_000); // seeded part
     while chosen.len() < n && idx < total {
         let mut p = sc.plan(seed, idx, Tier::Quick);
         idx += 1;
